@@ -5,7 +5,7 @@ from common import canon
 
 PROP = 'C01'
 LEAN_MODULES = ['XyzProofs.Props.C01']
-THEOREMS = ['Core.c01_calls_once', 'Core.c01_flat', 'Core.c01_slot', 'Core.c01_strategy_irrelevant',
+THEOREMS = ['Core.c01_calls_once', 'Core.c01_flat', 'Core.c01_slot', 'Core.c01_strategy_irrelevant', 'Core.c01_spelling',
             'Core.c01_split_slot', 'Core.unflatten_eq', 'Core.nest_get', 'Core.runShuffled_eq']
 ANCHORS = []
 RULE = ("grids of 1-5 arguments x 1-4 values (int/float/str, unsorted order, dict / list-of-pairs / single-pair "
@@ -57,6 +57,14 @@ def cases(ctx):
     n = 450 if ctx.tier == 'quick' else 4000
     for i in range(n):
         out.append(_case(rng, heavy_ok=(i % 4 == 0)))
+    # a grid with a repeated value must be rejected before the function is called at all
+    for i in range(20 if ctx.tier == 'quick' else 150):
+        c = _case(rng, heavy_ok=False, n_vals=(2, 4))
+        a = rng.choice(c['sweep']['combo_args'])
+        o = c['sweep']['combo_order'][a]
+        o.insert(rng.randrange(len(o) + 1), rng.choice(o))
+        c['dup'] = a
+        out.append(c)
     if ctx.tier == 'thorough':
         # all grid shapes with <=4 args x <=3 values for in-process strategies
         for nargs in range(1, 5):
@@ -101,7 +109,7 @@ def run_real(c, ctx):
         res = xyz.combo_runner(f, sweeps.py_combos(sw, c['spelling']), constants=sw['consts'] or None,
                                split=c['split'], flat=c['flat'], verbosity=0, **kw)
     except Exception as e:
-        return {'err': type(e).__name__, 'msg': str(e)[:200]}
+        return {'err': type(e).__name__, 'msg': str(e)[:200], 'log': sweeps.canon_log(fns.read_log(), sw)}
     log = fns.read_log()
     obs = {'out': sweeps.canon_result(res), 'log': sweeps.canon_log(log, sw),
            'perm_seed': seed, 'adv_order': list(adv.order) if adv else None}
@@ -123,7 +131,9 @@ def model_request(c, obs):
 
 def compare(c, obs, rep):
     if 'err' in obs or 'err' in rep:
-        return None if ('err' in obs) == ('err' in rep) else f'error mismatch: real {obs.get("err")} model {rep.get("err")}'
+        if ('err' in obs) != ('err' in rep): return f'error mismatch: real {obs.get("err")} model {rep.get("err")}'
+        if obs.get('log'): return 'the function was called although the request was rejected'
+        return None
     sw = c['sweep']
     exp = sweeps.expected(rep['out'], c['kind'], sweeps.sizes(sw))
     if obs['out'] != exp:
@@ -140,6 +150,10 @@ def compare(c, obs, rep):
 def oracle(c, obs):
     """the property, stated directly on the real observation"""
     if 'harness_exc' in obs: return None
+    if c.get('dup'):
+        if 'err' not in obs: return f'a grid with a repeated value for {c["dup"]} was not rejected'
+        if obs.get('log'): return 'the function was called before the grid with a repeated value was rejected'
+        return None
     if 'err' in obs: return f'combo_runner raised {obs["err"]}: {obs.get("msg")}'
     sw, kind = c['sweep'], c['kind']
     args = sw['combo_args']
